@@ -141,6 +141,131 @@ func ruleC11Same(r *Run) {
 		}
 		r.Check(rule, fmt.Sprintf("(*Router).appendRoute:normalise before %s insert#%d", tm.tierName(tu.fv), tu.ord), w.InstrPos(tu.mu), ok, "the path is normalised before the route is inserted")
 	}
+	ruleC11Prenorm(r, tm)
+}
+
+// C11-PRENORM: the route constructors run a pre-normaliser (simpleFmtPath) that the lookup side does not have.
+// Registration and lookup still agree for every string only if formatPath absorbs it — and formatPath trims
+// white space FIRST, so a pre-normaliser that inspects or prepends to the raw text before trimming puts leading
+// white space inside the path where formatPath's trim can no longer reach it (" /users" -> "/ /users"). The
+// structural condition checked: in every string->string function of the root package that lies between a
+// constructor's path parameter and the store into Route.path, every returned value is a constant or derives
+// from a white-space trim of the parameter.
+func ruleC11Prenorm(r *Run, tm *tierModel) {
+	w := r.W
+	rule := "C11-PRENORM"
+	fp := w.Fn("rux", "Router.formatPath")
+	isStrFn := func(g *ssa.Function) bool {
+		sg := g.Signature
+		return sg.Recv() == nil && sg.Params().Len() == 1 && sg.Results().Len() == 1 &&
+			types.Identical(sg.Params().At(0).Type(), types.Typ[types.String]) && types.Identical(sg.Results().At(0).Type(), types.Typ[types.String])
+	}
+	isTrim := func(v ssa.Value, prm *ssa.Parameter) bool {
+		c, ok := v.(*ssa.Call)
+		if !ok {
+			return false
+		}
+		switch calleeName(c) {
+		case "strings.TrimSpace", "strings.TrimFunc", "strings.Trim":
+			return flowsFromDeep(c.Call.Args[0], func(y ssa.Value) bool { return y == ssa.Value(prm) })
+		}
+		return false
+	}
+	seen := map[*ssa.Function]bool{}
+	n := 0
+	for _, f := range w.Funcs {
+		if f.Pkg == nil || f.Pkg.Pkg.Path() != modPath || f.Parent() != nil {
+			continue
+		}
+		for _, st := range storesToField(f, tm.path) {
+			// only stores fed from a string parameter of f through a module function other than formatPath
+			var cands []*ssa.Function
+			flowsFromDeep(st.Val, func(y ssa.Value) bool {
+				if c, ok := y.(*ssa.Call); ok {
+					if g := staticCallee(c); g != nil && g != fp && w.InModule(g) && g.Blocks != nil && isStrFn(g) {
+						fromParam := false
+						for _, prm := range f.Params {
+							if flowsFromDeep(c.Call.Args[0], func(z ssa.Value) bool { return z == ssa.Value(prm) }) {
+								fromParam = true
+							}
+						}
+						if fromParam {
+							cands = append(cands, g)
+						}
+					}
+				}
+				return false
+			})
+			for _, g := range cands {
+				if seen[g] {
+					continue
+				}
+				seen[g] = true
+				n++
+				prm := g.Params[0]
+				bad := ""
+				var badPos token.Pos
+				eachInstr(g, func(in ssa.Instruction) {
+					ret, ok := in.(*ssa.Return)
+					if !ok || bad != "" {
+						return
+					}
+					for _, lf := range valueLeaves(ret.Results[0]) {
+						if _, isC := lf.(*ssa.Const); isC {
+							continue
+						}
+						trimmed := flowsFromDeep(lf, func(y ssa.Value) bool { return isTrim(y, prm) })
+						// the raw parameter must not reach the result around the trim
+						raw := flowsFromDeepExcept(lf, func(y ssa.Value) bool { return y == ssa.Value(prm) }, func(y ssa.Value) bool { return isTrim(y, prm) })
+						if !trimmed || raw {
+							bad, badPos = "a returned value ("+shortCanon(canon(lf))+") is built from the raw parameter, not from its white-space-trimmed form", w.InstrPos(in)
+						}
+					}
+				})
+				pos := g.Pos()
+				if bad != "" {
+					pos = badPos
+				}
+				r.Check(rule, FuncName(g)+":trims first", pos, bad == "", map[bool]string{true: "every result of the registration-only pre-normaliser is a constant or derives from the trimmed parameter, so formatPath (which trims first) absorbs it", false: bad + ": leading white space ends up inside the registered path (\" /users\" -> \"/ /users\") where the lookup side, which only runs formatPath, never produces it — a route that no request for the same string reaches"}[bad == ""])
+			}
+		}
+	}
+	_ = n
+}
+
+// flowsFromDeepExcept: like flowsFromDeep, but does not look through values satisfying stop.
+func flowsFromDeepExcept(v ssa.Value, src, stop func(ssa.Value) bool) bool {
+	seen := map[ssa.Value]bool{}
+	var walk func(v ssa.Value, d int) bool
+	walk = func(v ssa.Value, d int) bool {
+		if v == nil || seen[v] || d > 80 {
+			return false
+		}
+		seen[v] = true
+		if stop(v) {
+			return false
+		}
+		if src(v) {
+			return true
+		}
+		if al, ok := v.(*ssa.Alloc); ok {
+			for _, ref := range *al.Referrers() {
+				if st, ok := ref.(*ssa.Store); ok && st.Addr == ssa.Value(al) && walk(st.Val, d+1) {
+					return true
+				}
+			}
+			return false
+		}
+		if in, ok := v.(ssa.Instruction); ok {
+			for _, op := range in.Operands(nil) {
+				if op != nil && *op != nil && walk(*op, d+1) {
+					return true
+				}
+			}
+		}
+		return false
+	}
+	return walk(v, 0)
 }
 
 func ruleC11Enc(r *Run) {
